@@ -64,6 +64,9 @@ func levelAModels(thorough bool) []sysCfg {
 			{Name: "3c-2i-f0", MaxCtr: 3, Cap: 2, Types: "A", Prios: "12", Events: "cancel", Budget: 0, Depth: 10},
 			{Name: "1c-1i-poll", MaxCtr: 1, Cap: 1, Types: "A", Prios: "1", Events: "wait createquota crash slow-poll-mine slow-poll-queued slow-poll-missing", Budget: 2, Depth: 16},
 			{Name: "2c-2i-poll3", MaxCtr: 2, Cap: 2, Types: "A", Prios: "12", Events: "createquota slow-poll-queued slow-poll-mine", Budget: 2, Depth: 18, PollTicks: 3},
+			// a successful `crunch-run --kill` whose answer arrives after the instance disappeared from the
+			// cloud listing (Pool.sync removed and closed the worker meanwhile)
+			{Name: "1c-1i-latekill", MaxCtr: 1, Cap: 1, Types: "A", Prios: "1", Events: "cancel gone slow-kill", Budget: 2, Depth: 12},
 			{Name: "1c-1i-hold2", MaxCtr: 1, Cap: 1, Types: "A", Prios: "1", Events: "prio0 prio1 cancel linger killfail hang restart slow-kill slow-list", Budget: 2, Depth: 18},
 			{Name: "2c-1i-requeue2", MaxCtr: 2, Cap: 1, Types: "A", Prios: "12", Events: "cancel prio0 prio1 linger killfail", Budget: 2, Depth: 12},
 			{Name: "1c-1i-hold-p3", MaxCtr: 1, Cap: 1, Types: "A", Prios: "1", Events: "prio0 prio1 linger killfail", Budget: 2, Depth: 18, ProbeTicks: 3},
